@@ -51,6 +51,9 @@ var c14ListB = ListSpec{ID: 2, Text: "# list B\n" +
 	":: example.org\n" +
 	"127.0.0.1 hosts.test alias.test\n" +
 	"0.0.0.0 dup.test dup.test\n" +
+	"127.0.0.2 n0.test n1.test n2.test n3.test n4.test n5.test n6.test n7.test n8.test n9.test\n" + // more names than a small inline set holds
+	"||many.test^\n||many.test^$important\n@@||many.test^$dnstype=AAAA\n||many.test^$dnstype=A\n||many.test^$ctag=~tv\n" +
+	"||many.test^$client=~nobody\n||many.test^$denyallow=x.test\n||many.test^$dnstype=~TXT\n||many.test^$ctag=~phone\n||many.test^$client=~10.9.9.9\n" + // ten rules match one request
 	":: dup.test\n" +
 	"||blocked.test^$client=10.0.0.1\n" +
 	"||tagged.test^$ctag=pc\n" +
@@ -86,6 +89,10 @@ func C14Scenarios() []Scenario {
 	sf := Query{Kind: "netmatch", URL: "http://x.test/secondbn/firstad/", Type: rules.TypeScript}
 	d7 := dnsQ("hosts.test", 1, "", "")
 	d8 := dnsQ("dup.test", 1, "", "")
+	d9 := dnsQ("n3.test", 1, "", "")
+	d10 := dnsQ("n9.test", 1, "", "")
+	d11 := dnsQ("many.test", 1, "", "")
+	many := netAll("http://many.test/", "", rules.TypeScript)
 	eng := Query{Kind: "engine", URL: "http://example.org/ads", Src: "http://example.org/", Type: rules.TypeScript}
 	eng2 := Query{Kind: "engine", URL: "http://ads.example.com/x", Src: "http://other.test/page", Type: rules.TypeImage}
 	cos := Query{Kind: "cosmetic", Host: "example.org", Option: rules.CosmeticOptionAll}
@@ -95,10 +102,11 @@ func C14Scenarios() []Scenario {
 		{Name: "S2-different-uncached-rules-3t", Lists: both, Threads: [][]Query{{q1}, {q2}, {q3}}, Warm: []Query{q1}},
 		{Name: "S3-lazy-regex-compile-2t", Lists: both, Threads: [][]Query{{rx}, {rx}}, Warm: []Query{q1}},
 		{Name: "S4-dns-pool-2t", Lists: both, Threads: [][]Query{{d2, d5}, {d3, d1}}, Warm: []Query{d1}, CloseAfter: true},
-		{Name: "S4-dns-pool-3t", Lists: both, Threads: [][]Query{{d2, d5}, {d3, d4}, {d6, d7}}, Warm: []Query{d1, d7}},
+		{Name: "S4-dns-pool-3t", Lists: both, Threads: [][]Query{{d2, d5}, {d3, d4}, {d6, d7}}, Warm: []Query{d1, d7}, QuickBound: 1},
 		{Name: "S4-dns-pool-both-tagged-2t", Lists: both, Threads: [][]Query{{d3, d5}, {d3b, d3}}, Warm: []Query{d1}},
 		{Name: "S8-last-lines-of-two-files-2t", Lists: both, Threads: [][]Query{{q2}, {d4}}, Warm: []Query{q1}},
 		{Name: "S10-equal-priority-rules-in-both-orders-2t", Lists: both, Threads: [][]Query{{fs}, {sf}}, Warm: []Query{q1}},
+		{Name: "S11-many-names-many-rules-2t", Lists: both, Threads: [][]Query{{d9, d11}, {d10, many}}, Warm: []Query{d1}, QuickBound: 1},
 		{Name: "S9-host-named-twice-2t", Lists: both, Threads: [][]Query{{d8}, {d8, d7}}, Warm: []Query{d1}},
 		{Name: "S5-engine-cosmetic-dns-3t", Lists: both, Threads: [][]Query{{eng}, {cos}, {d1}}, Warm: []Query{eng}},
 		{Name: "S7-engine-referrer-2t", Lists: both, Threads: [][]Query{{eng}, {eng2}}, Warm: []Query{eng}},
